@@ -147,6 +147,13 @@ impl Header {
 
         // Some CFB implementations use FREE_SECTOR to indicate END_OF_CHAIN.
         if first_difat_sector == consts::FREE_SECTOR {
+            if validation.is_strict() {
+                invalid_data!(
+                    "DIFAT chain must terminate with {}, not {}",
+                    consts::END_OF_CHAIN,
+                    consts::FREE_SECTOR
+                );
+            }
             first_difat_sector = consts::END_OF_CHAIN;
         }
 
